@@ -19,6 +19,7 @@ import (
 	crosschaintypes "github.com/functionx/fx-core/v8/x/crosschain/types"
 	erc20types "github.com/functionx/fx-core/v8/x/erc20/types"
 	fxevmtypes "github.com/functionx/fx-core/v8/x/evm/types"
+	fxgovtypes "github.com/functionx/fx-core/v8/x/gov/types"
 
 	"verif/harness/chain"
 	"verif/harness/core"
@@ -90,7 +91,7 @@ func c18Cases(seed uint64, tier string) []core.Case {
 				out = append(out, core.MkCase(fmt.Sprintf("C18-bridgecall-token-disabled-%d-%d-%d", nt, k, rep), c18Spec{Seed: rng.Uint64(), Chain: ch, Mode: "bridgecall", Target: "token-disabled", Refund: "to", NTokens: nt, FailAt: k}))
 			}
 		}
-		for _, kind := range []string{"error", "evm-revert", "evm-oog"} {
+		for _, kind := range []string{"error", "evm-revert", "evm-oog", "panic"} {
 			for _, nk := range [][2]int{{1, 0}, {3, 0}, {3, 1}, {3, 2}} {
 				out = append(out, core.MkCase(fmt.Sprintf("C18-proposal-%s-n%d-k%d-%d", kind, nk[0], nk[1], rep), c18Spec{Seed: rng.Uint64(), Chain: ch, Mode: "proposal", Kind: kind, N: nk[0], K: nk[1]}))
 			}
@@ -404,6 +405,20 @@ func c18Proposal(spec c18Spec, res *core.CaseResult, verbose bool) {
 			return &fxevmtypes.MsgCallContract{Authority: gov, ContractAddress: looper.Hex(), Data: "01"}
 		default:
 			return &fxevmtypes.MsgCallContract{Authority: gov, ContractAddress: common.HexToAddress("0x00000000000000000000000000000000000000aa").Hex(), Data: "01"} // no contract there
+		}
+	}
+	if spec.Kind == "panic" {
+		// raw store updates (all messages of a proposal have one type): the failing one writes its first
+		// entry and then asks for a key longer than the store accepts, which panics inside the store
+		key := func(i int) string { return hex.EncodeToString([]byte(fmt.Sprintf("\xf0c18-%d", i))) }
+		good = func(i int) sdk.Msg {
+			return &fxgovtypes.MsgUpdateStore{Authority: gov, UpdateStores: []fxgovtypes.UpdateStore{{Space: "eth", Key: key(i), OldValue: "", Value: "01"}}}
+		}
+		bad = func() sdk.Msg {
+			return &fxgovtypes.MsgUpdateStore{Authority: gov, UpdateStores: []fxgovtypes.UpdateStore{
+				{Space: "eth", Key: key(99), OldValue: "", Value: "02"},
+				{Space: "eth", Key: hex.EncodeToString(make([]byte, 131072)), OldValue: "", Value: "03"},
+			}}
 		}
 	}
 	var msgs []sdk.Msg
